@@ -3,6 +3,16 @@
 // harnesses see the crate's private items; no line of the copied source is
 // edited.
 
+// Oracle conditions are NON-CUTTING: `vassert!(cond, "NEVER: [Cxx] ...")` is a cover of the
+// negated condition that must be unsatisfiable.  Kani's `assert!` is assert-then-assume, so
+// the first violated assertion on a path hides every later one (and with it the property
+// tags of the later ones); covers do not constrain the path.
+macro_rules! vassert {
+    ($cond:expr, $msg:literal) => {
+        kani::cover!(!($cond), $msg)
+    };
+}
+
 pub mod common {
     include!("common.rs");
 }
